@@ -80,3 +80,11 @@ Print Assumptions crc_sites_accept_undamaged.
 Theorem crc_sites_exist : CrcSite_guards <> nil /\ length CrcSite_guards = CrcSite_count.
 Proof. exact Crc32Sites.crc_sites_nonempty. Qed.
 Print Assumptions crc_sites_exist.
+
+(** Writer side (two cooperating sites of src/writer/page_writer.c, regenerated the same way): the page header
+    stores a crc field only when the checksum of the body was computed, for every page size - so an undamaged file
+    written by carquet never carries a stale (0) checksum that verification would report. *)
+Theorem crc_writer_stores_only_computed : forall (write_crc : bool) (size : Z),
+  CrcWriter_stores write_crc size = true -> CrcWriter_computes write_crc size = true.
+Proof. exact Crc32Sites.crc_writer_stores_only_computed. Qed.
+Print Assumptions crc_writer_stores_only_computed.
